@@ -150,7 +150,7 @@ def edge_labels(e):
     return out
 
 
-def render_xml(m, rng=None, gui=True, cdata=False, empty_elems=False):
+def render_xml(m, rng=None, gui=True, cdata=False, empty_elems=False, extras=False):
     """rng (optional) shuffles label order inside transitions and adds GUI noise; cdata: some text blocks are written
     as (or partly as) CDATA sections instead of with entity escapes - the same character data for an XML parser."""
     from .xmlgen import esc as plain_esc
@@ -167,9 +167,22 @@ def render_xml(m, rng=None, gui=True, cdata=False, empty_elems=False):
         if x < 0.95:
             return plain_esc(text[:cut]) + "<![CDATA[" + text[cut:] + "]]>"
         return "<![CDATA[" + text[:cut] + "]]>" + plain_esc(text[cut:])
+    def nm(text):
+        """extras: blanks, tabs and line breaks around a name (as XML pretty printers lay names out)"""
+        if not extras or rng is None or rng.random() > 0.3:
+            return text
+        pads = ["", " ", "\t", "\n", "\n    ", "  \n\t", "\r\n  "]
+        return rng.choice(pads) + text + rng.choice(pads)
+
+    def note():
+        """extras: labels of the kinds the reader does not keep (comments, test code), with text"""
+        if not extras or rng is None or rng.random() > 0.25:
+            return ""
+        return '<label kind="%s" x="1" y="1">%s</label>' % (rng.choice(["comments", "comments", "testcodeEnter", "testcodeExit"]),
+                                                              plain_esc(rng.choice(["a note", "x <= 5 ?", "// not code", "i = 1;", " "])))
     o = [HEADER, "<nta>\n<declaration>", esc(decls_text(m["gdecl"])), "</declaration>\n"]
     for t in m["templates"]:
-        o.append('<template>\n<name x="5" y="5">%s</name>\n' % t["name"])
+        o.append('<template>\n<name x="5" y="5">%s</name>\n' % nm(t["name"]))
         if t["params"]:
             o.append("<parameter>%s</parameter>\n" % esc(", ".join(param_text(p) for p in t["params"])))
         o.append("<declaration>%s</declaration>\n" % esc(decls_text(t["decls"])))
@@ -181,7 +194,7 @@ def render_xml(m, rng=None, gui=True, cdata=False, empty_elems=False):
                 continue
             o.append('<location id="%s" x="%d" y="%d">' % (l["id"], 10, 20) if gui else '<location id="%s">' % l["id"])
             if l.get("name"):
-                o.append("<name>%s</name>" % l["name"])
+                o.append("<name>%s</name>" % nm(l["name"]))
             labs = []
             if l.get("inv") is not None:
                 labs.append(("invariant", G.render_min(l["inv"])))
@@ -192,7 +205,9 @@ def render_xml(m, rng=None, gui=True, cdata=False, empty_elems=False):
             for k, txt in labs:
                 if empty_elems and rng is not None and rng.random() < 0.3:
                     o.append('<label kind="%s" x="0" y="0"/>' % rng.choice(["comments", "invariant", "exponentialrate"]))
+                o.append(note())
                 o.append('<label kind="%s">%s</label>' % (k, esc(txt)))
+            o.append(note())
             if l.get("both_flags"):
                 o.append("<urgent/><committed/>")
             elif l.get("flag"):
@@ -216,6 +231,7 @@ def render_xml(m, rng=None, gui=True, cdata=False, empty_elems=False):
             for k, txt in labs:
                 if empty_elems and rng is not None and rng.random() < 0.25:
                     o.append('<label kind="%s" x="0" y="0"/>' % rng.choice(["comments", "guard", "assignment", "synchronisation", "select"]))
+                o.append(note())
                 o.append('<label kind="%s"%s>%s</label>' % (k, ' x="3" y="4"' if gui else "", esc(txt)))
             if rng is not None and rng.random() < 0.3:
                 o.append('<nail x="1" y="1"/>')
